@@ -7,9 +7,15 @@ From Dolt Require Import C45.Model C45.Spec.
 Import ListNotations.
 Local Open Scope N_scope.
 
-Definition input := (heads * list rstep)%type.          (* initial heads (shared), steps *)
-(* after each step: (remote heads, replica heads), each sorted by branch id *)
-Definition obs := list (heads * heads).
+(* after each step of a file-remote case: (remote heads, replica heads), each sorted by branch id;
+   after each step of a cluster case (the real cluster.commithook driven in-process; one harness step = a group of model
+   steps): (root the standby store holds — 9998 = still empty, hook not caught up, hook moved to the standby role) *)
+Inductive input :=
+| IRepl (h0 : heads) (steps : list rstep)        (* initial heads (shared), steps *)
+| IClust (groups : list (list cstep)).
+Inductive obs :=
+| ORepl (o : list (heads * heads))
+| OClust (o : list (N * bool * bool)).
 Definition case := (input * obs)%type.
 
 Fixpoint insert_sorted (p : N * N) (l : heads) : heads :=
@@ -19,13 +25,26 @@ Fixpoint insert_sorted (p : N * N) (l : heads) : heads :=
   end.
 Definition sort_heads (h : heads) : heads := fold_right insert_sorted [] h.
 
-Fixpoint trace (s : repl) (es : list rstep) : obs :=
+Fixpoint trace (s : repl) (es : list rstep) : list (heads * heads) :=
   match es with
   | [] => []
   | e :: r => let s' := repl_step s e in (sort_heads (r_remote s'), sort_heads (r_replica s')) :: trace s' r
   end.
 
-Definition model_obs (i : input) : obs := trace (init_repl (fst i)) (snd i).
+Definition none_root : N := 9998.
+Definition applied_head (s : cluster) : N := match c_applied s with x :: _ => x | [] => none_root end.
+
+Fixpoint ctrace (s : cluster) (gs : list (list cstep)) : list (N * bool * bool) :=
+  match gs with
+  | [] => []
+  | g :: r => let s' := fold_left cluster_step g s in (applied_head s', c_dirty s', c_swapped s') :: ctrace s' r
+  end.
+
+Definition model_obs (i : input) : obs :=
+  match i with
+  | IRepl h0 steps => ORepl (trace (init_repl h0) steps)
+  | IClust gs => OClust (ctrace init_cluster gs)
+  end.
 
 Fixpoint heads_eqb (a b : heads) : bool :=
   match a, b with
@@ -33,17 +52,29 @@ Fixpoint heads_eqb (a b : heads) : bool :=
   | (x, y) :: a', (u, v) :: b' => (x =? u) && (y =? v) && heads_eqb a' b'
   | _, _ => false
   end.
-Fixpoint obs_eqb (a b : obs) : bool :=
+Fixpoint robs_eqb (a b : list (heads * heads)) : bool :=
   match a, b with
   | [], [] => true
-  | (r1, p1) :: a', (r2, p2) :: b' => heads_eqb r1 r2 && heads_eqb p1 p2 && obs_eqb a' b'
+  | (r1, p1) :: a', (r2, p2) :: b' => heads_eqb r1 r2 && heads_eqb p1 p2 && robs_eqb a' b'
+  | _, _ => false
+  end.
+Fixpoint cobs_eqb (a b : list (N * bool * bool)) : bool :=
+  match a, b with
+  | [], [] => true
+  | (x1, d1, w1) :: a', (x2, d2, w2) :: b' => (x1 =? x2) && Bool.eqb d1 d2 && Bool.eqb w1 w2 && cobs_eqb a' b'
+  | _, _ => false
+  end.
+Definition obs_eqb (a b : obs) : bool :=
+  match a, b with
+  | ORepl x, ORepl y => robs_eqb x y
+  | OClust x, OClust y => cobs_eqb x y
   | _, _ => false
   end.
 
 (* The property on what the implementation showed:
    - after a commit that returned without a warning the remote's head of that branch is the new commit;
    - after every step, every head the replica shows is a head the remote had at that or an earlier time. *)
-Fixpoint oracle_from (hist : list (N * N)) (es : list rstep) (o : obs) : bool :=
+Fixpoint oracle_from (hist : list (N * N)) (es : list rstep) (o : list (heads * heads)) : bool :=
   match es, o with
   | [], [] => true
   | e :: es', (rem, rep) :: o' =>
@@ -53,7 +84,38 @@ Fixpoint oracle_from (hist : list (N * N)) (es : list rstep) (o : obs) : bool :=
     && oracle_from hist' es' o'
   | _, _ => false
   end.
-Definition oracle (i : input) (o : obs) : bool := oracle_from (fst i) (snd i) o.
+(* cluster: what the standby store holds is never invented and never goes back:
+   - membership: it is empty or a root the primary committed (before any transition);
+   - caught up (or moved to standby by a graceful transition) means: it is the newest committed root;
+   - order: the roots it holds over time appear in commit order (commit ids grow with time). *)
+Definition commits_of (g : list cstep) : list N :=
+  flat_map (fun e => match e with CCommit r => [r] | _ => [] end) g.
+
+Fixpoint cluster_member_from (committed : list N) (swapped : bool) (gs : list (list cstep)) (o : list (N * bool * bool)) : bool :=
+  match gs, o with
+  | [], [] => true
+  | g :: gs', (x, dirty, sw) :: o' =>
+    let committed' := if swapped then committed else rev (commits_of g) ++ committed in   (* newest first *)
+    ((x =? none_root) || existsb (fun r => r =? x) committed')
+    && (if dirty then true else match committed' with r :: _ => x =? r | [] => x =? none_root end)
+    && cluster_member_from committed' (swapped || sw) gs' o'
+  | _, _ => false
+  end.
+
+Fixpoint cluster_order_from (prev : N) (o : list (N * bool * bool)) : bool :=
+  match o with
+  | [] => true
+  | (x, _, _) :: o' =>
+    if x =? none_root then (prev =? none_root) && cluster_order_from prev o'
+    else ((prev =? none_root) || (prev <=? x)) && cluster_order_from x o'
+  end.
+
+Definition oracle (i : input) (o : obs) : bool :=
+  match i, o with
+  | IRepl h0 steps, ORepl ro => oracle_from h0 steps ro
+  | IClust gs, OClust co => cluster_member_from [] false gs co && cluster_order_from none_root co
+  | _, _ => false
+  end.
 
 Definition check_case (c : case) : N :=
   (if obs_eqb (model_obs (fst c)) (snd c) then 0 else 1)
